@@ -41,7 +41,10 @@ def gen(rng):
     # display names: unrelated, or one being a prefix of the other (generated identifiers are derived from them)
     nm = rng.choice([["lcd0", "lcd1"], ["lcd", "lcd_2"], ["panel", "panel_big"], ["d", "d_"], ["top", "bottom"]])
     chunks = []
+    cols0 = cols
     for li in range(n_lcd):
+        # a second display of the same driver class may have another width (helpers are shared per class, state is per display)
+        cols = cols0 if li == 0 or rng.random() < 0.5 else rng.choice([c2 for c2 in (8, 16, 20, 5, 2) if c2 != cols0])
         if i2c and li == 0:
             L.append(f"{nm[li]} = LCD(i2c_addr=39, cols={cols}, rows={rows})")
         else:
@@ -68,9 +71,15 @@ def gen(rng):
                 L.append(f"{nm[li]}.animate(\"{sp_style}\", {r}, {text!r}, speed_ms={speed}, loop={loop})")
             elif form < 0.8:
                 L.append(f"{nm[li]}.animate(style=\"{sp_style}\", row={r}, text={text!r}, loop={loop}, speed_ms={speed})")
-            else:
+            elif form < 0.9:
                 L.append(f"sp = {speed}")
                 L.append(f"{nm[li]}.animate(\"{sp_style}\", {r}, {text!r}, speed_ms=sp, loop={loop})")
+            else:
+                # the loop flag comes from a variable that starts as the other literal and is set in a block taken at run time
+                L.append(f"rep{li}{r} = {not loop}")
+                L.append("if 3 > 2:" if rng.random() < 0.5 else "for once2 in range(1):")
+                L.append(f"    rep{li}{r} = {loop}")
+                L.append(f"{nm[li]}.animate(\"{sp_style}\", {r}, {text!r}, speed_ms={speed}, loop=rep{li}{r})")
             if rng.random() < 0.2:
                 # the animation is started from inside a block (try/except, for, if-else): it still has to be ticked
                 call = L.pop()
